@@ -531,7 +531,7 @@ func (fc *FnCtx) lookupLocal(env *SpecEnv, name string) (TVal, bool) {
 				}
 				elem := a.Type().(*types.Pointer).Elem()
 				if v.P != nil {
-					return TVal{T: fc.loadPtr(env.Cur, v.P), Ty: elem}, true
+					return derefLoc(TVal{T: fc.loadPtr(env.Cur, v.P), Ty: elem, P: v.P}), true
 				}
 				if isStruct(elem) {
 					// a struct variable held in memory: denote it by its address, so that
@@ -802,10 +802,16 @@ func (env *SpecEnv) quant(q SQuant) TVal {
 		kw = "exists"
 	}
 	var s string
+	// a name for solver profiles (smt.qi.profile) and for reading a query: the bound variables
+	qid := "q"
+	for _, b := range q.Vars {
+		qid += "." + b.Name
+	}
+	qid = fmt.Sprintf("%s.%d", qid, *env.nbound)
 	if len(pats) > 0 {
-		s = fmt.Sprintf("(%s (%s) (! %s %s))", kw, strings.Join(binders, " "), body.S, strings.Join(pats, " "))
+		s = fmt.Sprintf("(%s (%s) (! %s :qid %s %s))", kw, strings.Join(binders, " "), body.S, qid, strings.Join(pats, " "))
 	} else {
-		s = fmt.Sprintf("(%s (%s) %s)", kw, strings.Join(binders, " "), body.S)
+		s = fmt.Sprintf("(%s (%s) (! %s :qid %s))", kw, strings.Join(binders, " "), body.S, qid)
 	}
 	return TVal{T: Term{s, SBool}, Ty: tBool}
 }
@@ -1096,6 +1102,20 @@ func (env *SpecEnv) call(c SCall) TVal {
 			env.fail("addr: %v", err)
 		}
 		return TVal{T: fc.interiorTerm(pt.Elem(), idx, base.T), Ty: types.NewPointer(st.Field(idx).Type())}
+	case "keyWith":
+		// keyWith(m, "F", v): the key of the entry of map m whose field F is v (see fnvals.go)
+		argN(3)
+		m := env.eval(c.Args[0])
+		lit, ok := c.Args[1].(SStrLit)
+		if !ok {
+			env.fail("keyWith needs a field name literal")
+		}
+		if _, isMap := m.Ty.Underlying().(*types.Map); !isMap {
+			env.fail("keyWith needs a map")
+		}
+		v := env.eval(c.Args[2])
+		t, kt := fc.keyWith(env.Cur, m.T, m.Ty, lit.Val, v.T)
+		return TVal{T: t, Ty: kt}
 	case "fnIs":
 		// fnIs(h, "full name"): the function value h is that function (or a method value of it)
 		argN(2)
